@@ -40,7 +40,9 @@ func (m *Model) subAddr(tn string, fname string, addr string) string {
 		m.vc.Declare(fn, []Sort{SInt}, SInt)
 		par := "par." + tn + "." + fname
 		m.vc.Declare(par, []Sort{SInt}, SInt)
-		m.vc.Def(fmt.Sprintf("(forall ((a Int)) (! (and (= (%s (%s a)) a) (not (= (%s a) 0)) (= (root (%s a)) (root a)) (not (= (%s a) a))) :pattern ((%s a))))", par, fn, fn, fn, fn, fn))
+		m.vc.Declare("ftag", []Sort{SInt}, SInt)
+		m.vc.fresh++
+		m.vc.Def(fmt.Sprintf("(forall ((a Int)) (! (and (= (%s (%s a)) a) (not (= (%s a) 0)) (= (root (%s a)) (root a)) (not (= (%s a) a)) (= (ftag (%s a)) %d)) :pattern ((%s a))))", par, fn, fn, fn, fn, fn, m.vc.fresh, fn))
 	}
 	return App(fn, addr)
 }
